@@ -125,6 +125,22 @@ def g_prog_stop2(rng):
     return {"kind": "prog", "payload": payload, "flows": flows, "mode": "start", "followup": True}
 
 
+def g_prog_restart(rng):
+    """Flows of ONE loop that co-win on an identical action at E (they share one Action object afterwards) and send its Start
+    event AGAIN on F, where a fresh flow starts the identical action as a new instance: when the fresh flow is picked, every
+    sharer co-wins with the same (shared) competing action."""
+    payload = {"a": 1}
+    n = rng.choice([2, 2, 3])
+    flows = []
+    for i in range(n):
+        flows.append({"pat": {"a": 1} if rng.random() < 0.5 else {}, "prio": None, "loop": None, "shape": "direct",
+                      "kind": "action", "act": 0 if rng.random() < 0.85 else 1, "ref": True, "stop_after": False, "restart_after": True})
+    for _ in range(rng.choice([1, 1, 2])):
+        flows.append({"pat": {}, "prio": rng.choice([None, None, "0.5"]), "loop": None, "shape": "direct", "kind": "action",
+                      "act": rng.choice([0, 0, 1]), "ref": rng.random() < 0.5, "stop_after": False, "trigger": "F"})
+    return {"kind": "prog", "payload": payload, "flows": flows, "mode": "start", "followup": True}
+
+
 SCORE_POOL = [1.0, 0.9, 0.81, 0.9 * 0.9, 0.729, 0.5, 0.45, 0.9 * 0.5, 0.405, 0.0, 1.0, 0.9]
 
 
@@ -166,7 +182,7 @@ def gen_cases(rng, tier):
     cases = []
     for _ in range(n_prog):
         r = rng.random()
-        c = g_prog(rng) if r < 0.85 else (g_prog_lowprio(rng) if r < 0.95 else g_prog_stop2(rng))
+        c = g_prog(rng) if r < 0.82 else (g_prog_lowprio(rng) if r < 0.92 else (g_prog_stop2(rng) if r < 0.96 else g_prog_restart(rng)))
         if tier == "quick":
             c["choices"] = [[rng.randrange(6) for _ in range(6)] for _ in range(3)]
         else:
@@ -229,10 +245,12 @@ def render(case):
             head = f"flow f{i} $r"
             body += prio + [f"  match E({pat})", "  send $r.Start()"]
         else:
-            trig = f"E2({pat})" if f.get("trigger") == "E2" else f"E({pat})"
+            trig = f"E2({pat})" if f.get("trigger") == "E2" else ("F()" if f.get("trigger") == "F" else f"E({pat})")
             body += prio + [f"  match {trig}", "  " + action_stmt(f, i, loopname, a2)]
         if f.get("stop_after"):
             body += ["  match F()", "  send $r.Stop()"]
+        if f.get("restart_after"):
+            body += ["  match F()", "  send $r.Start()"]
         body.append("  match Never()")
         out.append(deco + head + "\n" + "\n".join(body) + "\n")
     kw = "activate" if case["mode"] == "activate" else "start"
@@ -703,6 +721,20 @@ def borrowed_action_region(call):
     return False
 
 
+def double_delete_region(call):
+    """Region of the finding `cowin-double-delete`: two heads of one loop carry the SAME action uid (co-winners of an earlier
+    round that share one action) and a third head of the loop carries the equal Start event of another action instance."""
+    for w in call["heads"]:
+        if not (w["ev"]["act"] and w.get("start")):
+            continue
+        same = [h for h in call["heads"] if h is not w and h["loop"] == w["loop"] and h["ev"]["act"] and h["ev"]["act"] != w["ev"]["act"]
+                and (h["ev"]["name"], h["ev"]["args"]) == (w["ev"]["name"], w["ev"]["args"])]
+        acts = [h["ev"]["act"] for h in same]
+        if len(acts) != len(set(acts)):
+            return True
+    return False
+
+
 def model_requests(case, obs):
     return [r for r, _ in obs["_model"]]
 
@@ -822,7 +854,7 @@ def spec_vector(case, f):
 
 
 def fits(case, f):
-    if f.get("trigger") == "E2":
+    if f.get("trigger") in ("E2", "F"):
         return False  # waits for another event: the first event must leave it untouched
     return all(k in case["payload"] and case["payload"][k] == v for k, v in f["pat"].items())
 
@@ -946,12 +978,16 @@ def signature(case, obs, msg):
 
 def _signature(case, obs):
     try:
-        if any(distinct_actions_identical_event(c) for c in all_calls(case, obs)):
-            return "identical-event-of-different-actions"
-        if any(shared_action_region(c) for c in all_calls(case, obs)):
-            return "cowin-on-shared-action"
-        if any(borrowed_action_region(c) for c in all_calls(case, obs)):
+        calls = all_calls(case, obs)
+        # most specific region first (the regions of the repaired findings overlap with the open ones)
+        if any(double_delete_region(c) for c in calls):
+            return "cowin-double-delete"
+        if any(borrowed_action_region(c) for c in calls):
             return "cowin-on-borrowed-action"
+        if any(distinct_actions_identical_event(c) for c in calls):
+            return "identical-event-of-different-actions"
+        if any(shared_action_region(c) for c in calls):
+            return "cowin-on-shared-action"
     except Exception:  # noqa
         return None
     return None
@@ -1008,6 +1044,8 @@ def _tags(case, obs):
             t.append("identical-nonstart-event-of-different-actions")
         if borrowed_action_region(c):
             t.append("borrowed-action-region")
+        if double_delete_region(c):
+            t.append("double-delete-region")
     return t
 
 
